@@ -13,7 +13,6 @@
 use mcx::refsem::ops;
 use mcx::Ctx;
 use props::ccl::abstract_domain::IntervalDomain;
-use props::ccl::intermediate_representation::Bitvector;
 use props::bv;
 use serde::{Deserialize, Serialize};
 use serde_json::json;
@@ -248,17 +247,25 @@ pub fn build(iv: &Iv) -> IntervalDomain {
     serde_json::from_value(j).unwrap_or_else(|e| mcx::machinery(&format!("cannot build IntervalDomain through serde: {e}")))
 }
 
+/// Mirror of the serde shape of a `Bitvector` (apint): `{"width":[bits],"digits":[u64 little endian]}`.
 #[derive(Deserialize)]
-struct MInterval {
-    start: Bitvector,
-    end: Bitvector,
-    stride: u64,
+struct MBv {
+    width: (u32,),
+    digits: Vec<u64>,
 }
 #[derive(Deserialize)]
+struct MInterval {
+    start: MBv,
+    end: MBv,
+    stride: u64,
+}
+/// Mirror of the serde shape of `IntervalDomain` (all four private fields).
+#[derive(Deserialize)]
+#[serde(deny_unknown_fields)]
 struct MDomain {
     interval: MInterval,
-    widening_upper_bound: Option<Bitvector>,
-    widening_lower_bound: Option<Bitvector>,
+    widening_upper_bound: Option<MBv>,
+    widening_lower_bound: Option<MBv>,
     widening_delay: u64,
 }
 
@@ -275,30 +282,41 @@ pub struct View {
     pub delay: u64,
 }
 
-fn unbv_bits(b: &Bitvector) -> (u128, u32) {
-    use apint::Width;
-    let bits = b.width().to_usize() as u32;
-    if bits > 128 {
-        mcx::machinery("bitvector wider than 128 bits in an interval");
+fn unbv_bits(b: &MBv) -> (u128, u32) {
+    let bits = b.width.0;
+    if bits == 0 || bits > 128 || b.digits.len() != ((bits as usize) + 63) / 64 {
+        mcx::machinery("unexpected bitvector shape in a serialized interval");
     }
-    (b.clone().into_zero_resize(128).try_to_u128().unwrap(), bits)
+    let mut v = b.digits[0] as u128;
+    if b.digits.len() == 2 {
+        v |= (b.digits[1] as u128) << 64;
+    }
+    (v & mask_bits(bits), bits)
+}
+
+thread_local! {
+    static BUF: std::cell::RefCell<Vec<u8>> = const { std::cell::RefCell::new(Vec::new()) };
 }
 
 pub fn read_back(d: &IntervalDomain) -> View {
-    let bytes = serde_json::to_vec(d).unwrap_or_else(|e| mcx::machinery(&format!("cannot serialize IntervalDomain: {e}")));
-    let m: MDomain = serde_json::from_slice(&bytes).unwrap_or_else(|e| mcx::machinery(&format!("unexpected serde shape of IntervalDomain: {e}")));
-    let (s, bits_s) = unbv_bits(&m.interval.start);
-    let (e, bits_e) = unbv_bits(&m.interval.end);
-    View {
-        bits_s,
-        bits_e,
-        s,
-        e,
-        stride: m.interval.stride,
-        lo: m.widening_lower_bound.as_ref().map(unbv_bits),
-        hi: m.widening_upper_bound.as_ref().map(unbv_bits),
-        delay: m.widening_delay,
-    }
+    BUF.with(|buf| {
+        let mut buf = buf.borrow_mut();
+        buf.clear();
+        serde_json::to_writer(&mut *buf, d).unwrap_or_else(|e| mcx::machinery(&format!("cannot serialize IntervalDomain: {e}")));
+        let m: MDomain = serde_json::from_slice(&buf).unwrap_or_else(|e| mcx::machinery(&format!("unexpected serde shape of IntervalDomain: {e}")));
+        let (s, bits_s) = unbv_bits(&m.interval.start);
+        let (e, bits_e) = unbv_bits(&m.interval.end);
+        View {
+            bits_s,
+            bits_e,
+            s,
+            e,
+            stride: m.interval.stride,
+            lo: m.widening_lower_bound.as_ref().map(unbv_bits),
+            hi: m.widening_upper_bound.as_ref().map(unbv_bits),
+            delay: m.widening_delay,
+        }
+    })
 }
 
 fn mask_bits(bits: u32) -> u128 {
@@ -478,6 +496,33 @@ pub fn i1_bare(thorough: bool) -> Vec<(i64, i64, u64)> {
     set.into_iter().collect()
 }
 
+/// EVERY well-formed 1-byte interval: the 256 singletons and `[s, s+k*t; t]` for every start s,
+/// stride t >= 1 and k >= 1 that fits (170 700 values), sorted.
+pub fn all1_bare() -> Vec<(i64, i64, u64)> {
+    let mut v = Vec::new();
+    for s in -128i64..=127 {
+        v.push((s, s, 0));
+        for t in 1..=(127 - s) {
+            let mut e = s + t;
+            while e <= 127 {
+                v.push((s, e, t as u64));
+                e += t;
+            }
+        }
+    }
+    v.sort();
+    v
+}
+
+/// One precomputed element for a bare 1-byte interval under hint configuration number `k`
+/// (taken modulo the number of configurations that exist).
+pub fn elem1(bare: (i64, i64, u64), idx: usize, k: usize, g: &[i64]) -> Elem {
+    let cfgs = with_hints(1, bare, idx, g);
+    let iv = cfgs[k % cfgs.len()].clone();
+    let gamma = iv.gamma1();
+    Elem { dom: build(&iv), members: bvec(&gamma), gamma, iv }
+}
+
 /// The hint configurations of one bare interval: none / lower / upper / both. Hints are grid
 /// points strictly outside the interval (the only kind the code ever stores), not necessarily on
 /// the stride; which grid point (nearest or second nearest) and which delay (0, 1, 5) varies with
@@ -623,7 +668,9 @@ impl Acc {
         ctx.add_transitions(self.transitions);
         ctx.add_evaluations(self.evaluations);
         ctx.add_nontrivial(self.nontrivial);
-        ctx.outcome_set_merge(&self.outcomes);
+        for v in &self.outcomes {
+            ctx.outcome(v);
+        }
         for (k, n) in self.stats {
             ctx.stat(k, n);
         }
